@@ -365,6 +365,18 @@ def _call(f, args, cfg):
         if f in ('len', 'sum', 'prod', 'max', 'min', 'gcd'):
             if not _compound(a):
                 raise Undef(f'{f} of a non-compound value')
+            if a[0] == 'range' and f in ('len', 'sum', 'max', 'min') and _is_int(a[1]) and _is_int(a[2]):
+                # closed forms over the integer points of a range: defined whatever the size of the range
+                lo_ = int(a[1]) + (1 if a[3] else 0)
+                hi_ = int(a[2]) - (1 if a[4] else 0)
+                n_ = max(0, hi_ - lo_ + 1)
+                if f == 'len':
+                    return _ret(n_, cfg)
+                if f == 'sum':
+                    return _ret((lo_ + hi_) * n_ // 2, cfg)
+                if n_ == 0:
+                    raise Undef(f'{f} of nothing')
+                return _ret(hi_ if f == 'max' else lo_, cfg)
             elems = _elements(a, f, cfg)
             if f == 'len':
                 return _ret(len(elems), cfg)
